@@ -29,7 +29,8 @@ var PricedFns = []string{"SaveKeyValue", "ESDTNFTCreate", "ESDTNFTAddURI", "ESDT
 
 // BaseFns are further functions executed alongside (price = base cost only, n = 0): the property lets ALL built-in
 // functions run concurrently with each other and with repricing.
-var BaseFns = []string{"ESDTTransfer", "ESDTLocalMint", "ESDTLocalBurn", "ESDTNFTAddQuantity", "ESDTNFTBurn"}
+var BaseFns = []string{"ESDTTransfer", "ESDTLocalMint", "ESDTLocalBurn", "ESDTNFTAddQuantity", "ESDTNFTBurn",
+	"ESDTBurn", "ChangeOwnerAddress", "ClaimDeveloperRewards", "SetUserName"}
 
 // FlaggedFns are the functions with an activation flag moved by EpochConfirmed.
 var FlaggedFns = []string{"ESDTNFTAddURI", "ESDTNFTUpdateAttributes", "MultiESDTNFTTransfer"}
@@ -124,6 +125,7 @@ type GasEnv struct {
 	Tmpl     []*world.Account                  // template account of every executor slot (shard 0)
 	Tok      [][]byte                          // each slot's NFT collection
 	Fung     [][]byte                          // each slot's fungible token
+	SC       []*world.Account                  // template of a smart-contract account owned by the slot's user
 	Dest     []byte                            // a user on shard 1
 	CurK     int                               // schedule in force between rounds
 	CurFlag  bool                              // activation flags between rounds
@@ -134,8 +136,8 @@ func build(k int) (gasFactory, vmcommon.BuiltInFunctionContainer, *world.Notifie
 	n := &world.Notifier{}
 	f, err := builtInFunctions.NewBuiltInFunctionsFactory(builtInFunctions.ArgsCreateBuiltInFunctionContainer{
 		GasMap:                              Schedule(k),
-		MapDNSAddresses:                     map[string]struct{}{},
-		EnableUserNameChange:                false,
+		MapDNSAddresses:                     map[string]struct{}{string(dnsAddr): {}},
+		EnableUserNameChange:                true,
 		Marshalizer:                         &world.Marshalizer{},
 		Accounts:                            &safeAccounts{m: map[string]*world.Account{}},
 		ShardCoordinator:                    coord{},
@@ -153,6 +155,18 @@ func build(k int) (gasFactory, vmcommon.BuiltInFunctionContainer, *world.Notifie
 		return nil, nil, nil, err
 	}
 	return f, c, n, nil
+}
+
+var dnsAddr = scAddr(0x77, 0)
+
+// scAddr is shaped like a smart-contract address (eight leading zero bytes).
+func scAddr(b, last byte) []byte {
+	a := addr(b, last)
+	for i := 0; i < 8; i++ {
+		a[i] = 0
+	}
+	a[8], a[9] = 5, 0
+	return a
 }
 
 func addr(first, last byte) []byte {
@@ -214,6 +228,10 @@ func NewGasEnv() (*GasEnv, error) {
 			return nil, fmt.Errorf("setup ESDTLocalMint: %v", err)
 		}
 		e.Fung = append(e.Fung, fung)
+		sc := world.NewAccount(scAddr(byte(s), 0), nil)
+		sc.SetOwnerAddress(a.Addr)
+		sc.DevReward = big.NewInt(1000)
+		e.SC = append(e.SC, sc)
 		create, err := calib.Get("ESDTNFTCreate")
 		if err != nil {
 			return nil, err
@@ -232,11 +250,18 @@ func NewGasEnv() (*GasEnv, error) {
 
 // gasCall is one planned execution.
 type gasCall struct {
-	Fn     string
-	DstNil bool                               // the destination account lives on another shard
-	In     func() *vmcommon.ContractCallInput // fresh input object for every execution
-	M, N   int                                // measured at schedule 1
+	Fn   string
+	Dst  int                                // which account objects the call receives: dstSelf, dstNil (destination on another shard / none), dstSC, dstSelfNoSnd
+	In   func() *vmcommon.ContractCallInput // fresh input object for every execution
+	M, N int                                // measured at schedule 1
 }
+
+const (
+	dstSelf = iota
+	dstNil
+	dstSC
+	dstSelfNoSnd // SetUserName: the DNS contract calls, the user account is the destination
+)
 
 func blob(r *rand.Rand, max int) []byte {
 	b := make([]byte, 1+r.Intn(max))
@@ -254,13 +279,31 @@ func (e *GasEnv) planCall(r *rand.Rand, slot int) *gasCall {
 		fn = BaseFns[r.Intn(len(BaseFns))]
 	}
 	fung := e.Fung[slot]
-	dstNil := false
+	dst := dstSelf
+	sc := e.SC[slot].Addr
 	var mk func() *vmcommon.ContractCallInput
 	switch fn {
 	case "ESDTTransfer":
 		args := [][]byte{fung, nb(uint64(1 + r.Intn(5)))}
-		dstNil = true
+		dst = dstNil
 		mk = func() *vmcommon.ContractCallInput { return input(a, e.Dest, fn, args...) }
+	case "ESDTBurn":
+		args := [][]byte{fung, nb(uint64(1 + r.Intn(5)))}
+		dst = dstNil
+		mk = func() *vmcommon.ContractCallInput { return input(a, world.ESDTSC, fn, args...) }
+	case "ChangeOwnerAddress":
+		dst = dstSC
+		if r.Intn(2) == 0 {
+			dst = dstNil // the contract lives on another shard: only the gas is taken
+		}
+		mk = func() *vmcommon.ContractCallInput { return input(a, sc, fn, a) }
+	case "ClaimDeveloperRewards":
+		dst = dstSC
+		mk = func() *vmcommon.ContractCallInput { return input(a, sc, fn) }
+	case "SetUserName":
+		dst = dstSelfNoSnd
+		name := blob(r, 12)
+		mk = func() *vmcommon.ContractCallInput { return input(dnsAddr, a, fn, name) }
 	case "ESDTLocalMint", "ESDTLocalBurn":
 		args := [][]byte{fung, nb(uint64(1 + r.Intn(5)))}
 		mk = func() *vmcommon.ContractCallInput { return input(a, a, fn, args...) }
@@ -299,7 +342,7 @@ func (e *GasEnv) planCall(r *rand.Rand, slot int) *gasCall {
 		}
 		mk = func() *vmcommon.ContractCallInput { return input(a, a, fn, args...) }
 	}
-	return &gasCall{Fn: fn, In: mk, DstNil: dstNil}
+	return &gasCall{Fn: fn, In: mk, Dst: dst}
 }
 
 type execRes struct {
@@ -307,17 +350,22 @@ type execRes struct {
 	err    string
 }
 
-func execute(c vmcommon.BuiltInFunctionContainer, call *gasCall, acc *world.Account) execRes {
+func execute(c vmcommon.BuiltInFunctionContainer, call *gasCall, acc, sc *world.Account) execRes {
 	fn, err := c.Get(call.Fn)
 	if err != nil {
 		return execRes{-1, err.Error()}
 	}
 	in := call.In()
-	var dst vmcommon.UserAccountHandler = acc
-	if call.DstNil {
+	var snd, dst vmcommon.UserAccountHandler = acc, acc
+	switch call.Dst {
+	case dstNil:
 		dst = nil
+	case dstSC:
+		dst = sc
+	case dstSelfNoSnd:
+		snd = nil
 	}
-	out, err := fn.ProcessBuiltinFunction(acc, dst, in)
+	out, err := fn.ProcessBuiltinFunction(snd, dst, in)
 	if err != nil || out == nil || out.ReturnCode != vmcommon.Ok {
 		msg := "no output"
 		if err != nil {
@@ -337,9 +385,9 @@ func execute(c vmcommon.BuiltInFunctionContainer, call *gasCall, acc *world.Acco
 // calibrate measures (m, n) of every planned call sequentially at schedule 1 on copies of the accounts.
 func (e *GasEnv) calibrate(plans [][]*gasCall, slots []int) error {
 	for g := range plans {
-		acc := e.Tmpl[slots[g]].Clone(nil)
+		acc, sc := e.Tmpl[slots[g]].Clone(nil), e.SC[slots[g]].Clone(nil)
 		for _, c := range plans[g] {
-			res := execute(e.Calib, c, acc)
+			res := execute(e.Calib, c, acc, sc)
 			if res.charge < 0 {
 				return fmt.Errorf("calibration of %s failed: %s", c.Fn, res.err)
 			}
@@ -380,7 +428,7 @@ func (e *GasEnv) GasRound(r *rand.Rand, no *int) ([]*Round, error) {
 
 	steps := make([][]Step, nexec+2)
 	for g := range plans {
-		acc := e.Tmpl[slots[g]].Clone(nil)
+		acc, sc := e.Tmpl[slots[g]].Clone(nil), e.SC[slots[g]].Clone(nil)
 		for _, c := range plans[g] {
 			c := c
 			if isFlagged(c.Fn) && r.Intn(2) == 0 {
@@ -393,7 +441,7 @@ func (e *GasEnv) GasRound(r *rand.Rand, no *int) ([]*Round, error) {
 				}})
 			}
 			steps[g] = append(steps[g], Step{Name: "exec", Args: map[string]interface{}{"k": 0, "m": c.M, "n": c.N, "fn": c.Fn},
-				Do:    func() interface{} { return execute(e.Cont, c, acc) },
+				Do:    func() interface{} { return execute(e.Cont, c, acc, sc) },
 				Enc:   func(raw interface{}) interface{} { return int(raw.(execRes).charge) },
 				Yield: r.Intn(4) == 0, Spin: r.Intn(2) * r.Intn(3000)})
 		}
